@@ -195,6 +195,10 @@ class Soap11(XmlDocument):
         # DateTime(dt_format="...") (or similar) is bypassed.
         self._to_unicode_handlers[Time] = lambda cls, value: value.isoformat()
         self._to_unicode_handlers[DateTime] = lambda cls, value: value.isoformat()
+        # dates are read in iso format only (see below), so they are written
+        # that way too: Date(date_format="...") is bypassed as well.
+        self._to_unicode_handlers[Date] = lambda cls, value: (value.date()
+                      if hasattr(value, "date") else value).isoformat()
 
         self._from_unicode_handlers[Date] = self.date_from_unicode_iso
         self._from_unicode_handlers[DateTime] = self.datetime_from_unicode_iso
